@@ -56,6 +56,18 @@ CHECKS = {
             'Trusted: clang\'s type checker and constant evaluator, LP64. Doc strings are not checked; "..." of the three variadic '
             'functions cannot be represented by the metadata model (listed in evidence).',
             'compile-time assertions generated from the real metadata, discharged by the C compiler on the real headers'),
+    'C24': ('DESIGN.md section 4 / C24',
+            'Deductive proof over the reals that the real bodies of mju_mulQuat, mju_negQuat, mju_rotVecQuat (all branches), '
+            'mju_quat2Mat, mju_mulQuatAxis, mju_derivQuat, mju_cross, mju_mulPose/negPose/trnVecPose, mju_axisAngle2Quat, '
+            'mju_euler2Quat (all 216 axis sequences) and their mji_ inline twins satisfy the group laws: associativity, '
+            'multiplicative norm, inverse, M(q)^T M(q) = |q|^4 I, det = |q|^6, M(ab) = M(a)M(b), rotation = matrix action and '
+            'isometry for unit q, pose inverse, Euler composition. Each law is the postcondition of a client that only calls the '
+            'utilities; the bodies are executed symbolically from the source on every run; obligations are polynomial identities '
+            'discharged by z3/cvc5 nonlinear real arithmetic.',
+            'Trusted: VC generator, clang, z3/cvc5. Machine doubles are treated as mathematical reals (the algebra is proved, not the '
+            'rounding); sin/cos abstracted by s^2+c^2=1, sqrt by t>=0,t^2=x. Out of reach (listed): mat2Quat round trip (bounded '
+            'native stand-in), subQuat/quatIntegrate/quat2Vel inverse laws.',
+            'client-lemma contracts + symbolic execution of the real bodies, z3/cvc5 NRA'),
 }
 
 NA = {
